@@ -135,6 +135,7 @@ impl NHistory {
             self.res.panicked = true;
         }
         // bookkeeping on the resolved operation
+        let mut key_flags = (false, false);
         if let Some(v) = resolved.as_l() {
             match resolved.opcode() {
                 Some(100) => {
@@ -149,11 +150,22 @@ impl NHistory {
                         let in_hosts = tok.server_addresses.iter().flatten().any(|a| self.server_addrs.contains(a));
                         let valid = key == self.server_key.clone().or(Some(vec![0u8; 32])) && tok.protocol_id == self.server_protocol && (in_hosts || self.server_key.is_none());
                         let user = v.get(8).and_then(|t| t.as_b()).map(|x| x.to_vec()).unwrap_or_default();
+                        // C17/C04: the two directions of a session and different tokens never share a key
+                        let same_dir = tok.client_to_server_key == tok.server_to_client_key;
+                        let shared = self.tokens.iter().any(|(k2, t)| *k2 != k && (t.c2s == tok.client_to_server_key || t.s2c == tok.server_to_client_key || t.c2s == tok.server_to_client_key || t.s2c == tok.client_to_server_key));
+                        key_flags = (same_dir, shared);
                         self.tokens.insert(k, TokenInfo { valid_for_server: valid, id: tok.client_id, user, c2s: tok.client_to_server_key, s2c: tok.server_to_client_key, protocol: tok.protocol_id, expire: tok.expire_timestamp });
                     }
                 }
                 _ => {}
             }
+        }
+        if key_flags.0 {
+            self.violate("C17", "a generated connect token carries the same key for both directions: every sequence number is used under it twice".to_string());
+            self.violate("C04", "a generated connect token carries the same key for both directions: an endpoint's own datagrams open at that endpoint".to_string());
+        }
+        if key_flags.1 {
+            self.violate("C17", "two generated connect tokens share a session key".to_string());
         }
         obs
     }
@@ -397,9 +409,6 @@ impl NHistory {
                 let id = r.get(1).and_then(|t| t.as_u64()).unwrap_or(0);
                 let a = r.get(2).and_then(parse_addr);
                 let user = r.get(3).and_then(|t| t.as_b()).map(|x| x.to_vec()).unwrap_or_default();
-                if let (Some(a), Some(p)) = (a, r.get(4).and_then(|t| t.as_b())) {
-                    self.log_server_out(p.to_vec(), a, None);
-                }
                 self.feat("client_connected");
                 self.max_accepted.clear();
                 if self.connected.contains_key(&id) {
@@ -424,6 +433,10 @@ impl NHistory {
                     if !ok {
                         self.violate("C05", format!("client id {} reported connected from {} without a valid connect token request from that address carrying this id and user data", id, a));
                     }
+                }
+                // the keep-alive that announces the session: logged once the session count of its token is up to date
+                if let (Some(a), Some(p)) = (a, r.get(4).and_then(|t| t.as_b())) {
+                    self.log_server_out(p.to_vec(), a, None);
                 }
             }
             4 => {
@@ -737,6 +750,37 @@ impl NHistory {
                     self.feat("tampered_or_crossed_to_client");
                 }
                 self.to_client(target, data, if unmodified { Some(i) } else { None }, inauthentic);
+            }
+            156 => {
+                // (156 k back): a datagram client k emitted comes back to client k itself
+                let (k, back) = (u(1).unwrap_or(0), u(2).unwrap_or(0) as usize);
+                let len = self.out_c.get(&k).map(|l| l.len()).unwrap_or(0);
+                if back >= len {
+                    self.comment("datagram does not exist: skipped");
+                    return true;
+                }
+                let data = self.out_c[&k][len - 1 - back].bytes.clone();
+                self.feat("reflected_to_client");
+                self.to_client(k, data, None, true);
+            }
+            157 => {
+                // (157 k back): a datagram the server addressed to client k comes back to the server from k's address
+                let (k, back) = (u(1).unwrap_or(0), u(2).unwrap_or(0) as usize);
+                let addr = match self.client_addr.get(&k) {
+                    Some(a) => *a,
+                    None => {
+                        self.comment("unknown client address: skipped");
+                        return true;
+                    }
+                };
+                let idxs: Vec<usize> = self.out_s.iter().enumerate().filter(|(_, d)| d.dst == addr).map(|(i, _)| i).collect();
+                if back >= idxs.len() {
+                    self.comment("datagram does not exist: skipped");
+                    return true;
+                }
+                let data = self.out_s[idxs[idxs.len() - 1 - back]].bytes.clone();
+                self.feat("reflected_to_server");
+                self.to_server(addr, data, None, false);
             }
             155 => {
                 // (155 k kc seq): the owner of client k's token answers with the challenge the server issued to client kc
